@@ -131,7 +131,7 @@ fn oracle_exec(case: &ExecCase, obs: &mut Obs) -> Result<(), Violation> {
         per_yield: GasLimit::DEFAULT_PER_YIELD,
         total: case.limit,
     };
-    let Some(vm0) = make_vm(&case.init) else {
+    let Some(vm0) = case.make_vm() else {
         obs.skip("init not constructible");
         return Ok(());
     };
